@@ -18,6 +18,18 @@ CHECKS = {
         "The reference evaluator (sem.rs) is the trusted base; its reading of the manual is listed in DESIGN.md Appendix A. Floats: IEEE-exact except transcendentals/float powers (2 ulp); float = within the undocumented epsilon is discarded.",
         "6 C02",
     ),
+    "C09": (
+        "proptest-generated DATA-centred programs entered through edit histories, against the reference interpreter on the final listing (source-order constant list, RESTORE [n] pointer semantics, conversion as assignment)",
+        "Exploration with a reference model: DATA lines anywhere among the code, typed constants and typed targets, RESTORE / RESTORE n for any line, counted and fuel-bounded re-reads, a reading subroutine, CLEAR, OUT OF DATA; the program is typed out of order with DATA lines replaced, deleted and re-added and partial runs in between, then RUN, direct READs and RUN n are compared with the model.",
+        "Trusted base: model.rs / sem.rs (A15). The edit history only matters through the final listing, which is asserted to equal the intended one.",
+        "6 C09",
+    ),
+    "C10": (
+        "proptest-generated programs around DEF FN (typed names and parameters, shadowing, nesting to depth 6, calls in subscripts / loop bounds / conditions / arguments, DEFtype on parameter letters and on F, error endings) against the reference interpreter; literal cases for the documented error codes",
+        "Exploration with a reference model implementing call-by-value with local parameters and call-time evaluation; transcripts (values, shadowed globals afterwards, error code and line) must be identical; error paths (arity, undefined, before DEF, recursion to OUT OF MEMORY, DEF in direct mode) are followed by further direct statements to show the session stays usable.",
+        "Trusted base: model.rs (A16). Result conversion to the function name's type is not documented: bodies are wrapped in CINT/CSNG/CDBL.",
+        "6 C10",
+    ),
     "C12": (
         "differential testing over proptest-generated session prefixes (earlier complete/failed/stopped/interrupted runs, direct assignments, DIM, DEFtype, partial READ, open FOR/GOSUB frames, program switches): RUN after the prefix vs RUN in a fresh interpreter; CLEAR/NEW + probe battery vs fresh",
         "Exploration of session histories with a differential oracle: whatever the prefix left behind, RUN / RUN n must give the transcript and final variables of a fresh interpreter holding the same listing, and after CLEAR or NEW an 18-probe battery (every name, re-DIM, DEFtype exposure, READ, RETURN, NEXT, CONT, FNx) must be indistinguishable from a fresh start.",
